@@ -5,6 +5,7 @@ import ast
 from typing import Dict, List, Optional, Set, Tuple
 
 from ..core import AnalysisError, RuleSpec
+from . import common
 from ..pymodel import call_name
 from .. import astq
 
@@ -377,6 +378,15 @@ def r6_project_graph_roots(ctx, rep):
     rep.ob("file graph edges come from deplist", ok, "", "ford/graphs.py")
 
 
+
+def r7_alias(ctx, rep):
+    """TypeNode reads FortranType.local_variables (the type's own components) for composition edges; it is saved as an
+    alias of `variables` before the inherited components are added, so `variables` must be re-bound, not mutated"""
+    n = common.alias_then_mutate(ctx, rep)
+    if n == 0:
+        raise AnalysisError("no `self.a = self.b` list alias found in the entity classes (FortranType.correlate: local_variables)")
+
+
 RULES = [
     RuleSpec("C13.R6", r6_project_graph_roots, "project-wide graph roots; file dependencies use the recursive closure", floor=8),
     RuleSpec("C13.R1", r1_pairing, "forward/inverse adjacency pairing at node creation", floor=20),
@@ -384,4 +394,5 @@ RULES = [
     RuleSpec("C13.R3", r3_edges, "edge endpoints are nodes of the same hop; edges unconditional", floor=12),
     RuleSpec("C13.R4", r4_optout, "graph opt-out, per-entity creation and limits", floor=8),
     RuleSpec("C13.R5", r5_sorted_emission, "sorted iteration wherever nodes/edges are emitted", floor=10),
+    RuleSpec("C13.R7", r7_alias, "a saved alias of a component list is not mutated in place", floor=1),
 ]
